@@ -65,5 +65,11 @@ def check(run, replay=None):
                        'the shared model), raw random identifiers; plus nodegen.random_history and randomised D-14 scenarios.  Oracle: no sanitizer/fence fault, every delivered message <= 223 '
                        'bytes, <= 20 deliveries per ParseMessages.  Model (incl. its out-of-bounds flag) and C++ compared on every event and the state dump, both scheduler builds; '
                        'non-trivial = history with received frames')
+    # the 64-bit harness handles all cases of one call in one process and never frees a node (tNMEA2000 has no destructor), so a call
+    # gets a bounded number of cases: beyond ~10^4 histories the sanitizer's allocator gives up, which would look like a crash
+    CHUNK = 2500
+    chunks = [cases[k:k + CHUNK] for k in range(0, len(cases), CHUNK)]
     for fs in ('w64', 'w32'):
-        vlib.correspond(run, 'safe-' + fs, 'h_node', fs, 'NODE', cases, oracle, nontrivial, model_args=[fs])
+        for k, chunk in enumerate(chunks):
+            fam = 'safe-' + fs if len(chunks) == 1 else 'safe-%s-c%02d' % (fs, k)
+            vlib.correspond(run, fam, 'h_node', fs, 'NODE', chunk, oracle, nontrivial, model_args=[fs])
